@@ -140,6 +140,22 @@ ITEM_TOKEN = {"method": "m", "impl": "i", "type": "t", "module": "g", "mod+metho
 PER_FILE = {"method": 1000, "impl": 600, "type": 200, "module": 200, "mod+method": 200, "impl+method": 600,
             "type+method": 200, "mod+type": 200}
 METHOD = "        pub fn %s(w: &mut DiplomatWrite) {}"
+# the method carrying (or inheriting) the attribute rotates through four forms with the case index: special methods get their
+# binding name from a different formatter routine than plain ones (constructor / accessor name vs method name), and a rename whose
+# condition holds replaces the name spelled in the special-method attribute as well
+METHOD_FORMS = (
+    "        pub fn %(n)s(w: &mut DiplomatWrite) {}",
+    "        #[diplomat::attr(auto, named_constructor = \"zq7_k_%(i)04d\")]\n        pub fn %(n)s() -> Box<Self> { unimplemented!() }",
+    "        pub fn %(n)s(&self) -> u8 { 0 }",
+    "        #[diplomat::attr(auto, getter = \"zq7_k_%(i)04d\")]\n        pub fn %(n)s(&self) -> u8 { 0 }",
+)
+
+
+def method_text(name, i, opaque_host=True, rotate=False):
+    """zq7_m_ methods only; special forms need an opaque host (Box<Self>, &self)"""
+    if not rotate or not name.startswith("zq7_m_") or not opaque_host:
+        return METHOD % name
+    return METHOD_FORMS[i % 4] % {"n": name, "i": i}
 
 
 # the kind of the type carrying (type placement) or inheriting (module placement) the attribute rotates with the case index, so
@@ -169,7 +185,7 @@ def _ptext(payload, placement, role, idx):
     return 'rename = "%s"' % name
 
 
-def emit(placement, payload, idxs, cond):
+def emit(placement, payload, idxs, cond, rotate=False):
     """cond(idx, role) -> condition text or None (attribute omitted); role 'i' (the item itself) / 'o' (enclosing)."""
     out = []
 
@@ -188,7 +204,7 @@ def emit(placement, payload, idxs, cond):
                 out.append("    impl %s {" % hn)
                 for i in chunk:
                     al(i, "i", "        ")
-                    out.append(METHOD % ("zq7_m_%04d" % i))
+                    out.append(method_text("zq7_m_%04d" % i, i, True, rotate))
                 out.append("    }")
             else:
                 for i in chunk:
@@ -196,7 +212,7 @@ def emit(placement, payload, idxs, cond):
                     out.append("    impl %s {" % hn)
                     if placement == "impl+method":
                         al(i, "i", "        ")
-                    out.append(METHOD % (("zq7_i_%04d" if placement == "impl" else "zq7_m_%04d") % i))
+                    out.append(method_text(("zq7_i_%04d" if placement == "impl" else "zq7_m_%04d") % i, i, True, rotate))
                     out.append("    }")
         out.append("}")
     elif placement in ("type", "type+method"):
@@ -209,7 +225,7 @@ def emit(placement, payload, idxs, cond):
             out.append("    %s\n    impl Zq7T%04d {" % (KIND_DECL[kind] % ("Zq7T%04d" % i), i))
             if placement == "type+method":
                 al(i, "i", "        ")
-            out.append(METHOD % (("zq7_u_%04d" if placement == "type" else "zq7_m_%04d") % i))
+            out.append(method_text(("zq7_u_%04d" if placement == "type" else "zq7_m_%04d") % i, i, kind == "opaque", rotate))
             out.append("    }")
         out.append("}")
     elif placement in ("module", "mod+method", "mod+type"):
@@ -226,7 +242,7 @@ def emit(placement, payload, idxs, cond):
             out.append("    %s\n    impl %s {" % (KIND_DECL[kind] % tn, tn))
             if placement == "mod+method":
                 al(i, "i", "        ")
-            out.append(METHOD % (("zq7_m_%04d" if placement == "mod+method" else "zq7_u_%04d") % i))
+            out.append(method_text(("zq7_m_%04d" if placement == "mod+method" else "zq7_u_%04d") % i, i, kind == "opaque", rotate))
             out.append("    }\n}")
     else:
         raise MachineryError("unknown placement %s" % placement)
@@ -248,7 +264,7 @@ def tokens_of(tree):
     return set((m.group(1), int(m.group(2))) for m in TOK.finditer(text))
 
 
-def gen(wd, name, backend, text, cli=None):
+def gen(wd, name, backend, text, cli=None, bundle=False):
     """One run of the real binary. -> dict(rc, err, tree|None).  demo_gen: by default it embeds a `js/` sub-folder that is
     the output of a nested run of the *js* backend (own validator; judged under backend js, and a js-only lowering error
     would abort the demo_gen run); `demo_gen.relative_js_path` is set so that only demo_gen's own files are produced."""
@@ -261,7 +277,7 @@ def gen(wd, name, backend, text, cli=None):
         fh.write(text)
     out = os.path.join(d, "out")
     cfgs = list(default_configs(backend))
-    if backend == "demo_gen":
+    if backend == "demo_gen" and not bundle:
         cfgs.append("demo_gen.relative_js_path=./js/")
     p = run_tool(cli or backend, src, out, configs=cfgs, timeout=600)
     tree = None
@@ -285,9 +301,13 @@ def err_kind(r):
     return "error(rc=%s)" % r["rc"]
 
 
-def expected_tokens(placement, payload, to, ti, backend):
+def expected_tokens(placement, payload, to, ti, backend, idx=0):
     """token -> expected presence, only for tokens the property lets us judge in this backend."""
     it = ITEM_TOKEN[placement]
+    if backend == "demo_gen" and it == "m" and idx % 4 != 0:
+        # demo_gen's own files only render methods that produce a string (form 0); the other forms are judged through the
+        # byte-identity with the canonical form only
+        return {}
     if payload == "disable":
         return {it: not (to or ti)}
     # the original name stays visible through the ABI symbol; demo_gen's own files only carry the API name
@@ -351,8 +371,8 @@ def process(job):
         res["outcomes"][k] = res["outcomes"].get(k, 0) + n
 
     if main:
-        real = gen(wd, job["name"] + "-" + backend + "-real", backend, emit(placement, payload, main, real_cond))
-        canon = gen(wd, job["name"] + "-" + backend + "-canon", backend, emit(placement, payload, main, canon_cond))
+        real = gen(wd, job["name"] + "-" + backend + "-real", backend, emit(placement, payload, main, real_cond, rotate=True))
+        canon = gen(wd, job["name"] + "-" + backend + "-canon", backend, emit(placement, payload, main, canon_cond, rotate=True))
         res["runs"] += 2
         if real["rc"] != 0 or canon["rc"] != 0:
             res["batch_fail"] = {"what": "tool failed on a batch without error formulas", "real": err_kind(real),
@@ -363,7 +383,7 @@ def process(job):
             toks = tokens_of(real["tree"])
             for i in main:
                 to, ti = truth[i]
-                exp = expected_tokens(placement, payload, to, ti, backend)
+                exp = expected_tokens(placement, payload, to, ti, backend, i)
                 bad = [(t, e) for t, e in sorted(exp.items()) if ((t, i) in toks) != e]
                 res["judged"] += 1
                 eff = "effect" if (to or ti) else "no-effect"
@@ -380,16 +400,31 @@ def process(job):
                 res["batch_fail"] = {"what": "output tree differs from the tree of the canonical form (false attributes removed, true ones as `*`)",
                                      "real": "ok", "canon": "ok", "differing_files": diff[:20], "ids": main}
                 bump("batch:tree-differs")
+            if backend == "demo_gen" and not res["fails"] and not res["batch_fail"]:
+                # the js/ folder demo_gen bundles by default is JS-backend output: the attributes in it are those of the js backend
+                text = emit(placement, payload, main, real_cond, rotate=True)
+                bundled = gen(wd, job["name"] + "-demo_gen-bundled", "demo_gen", text, bundle=True)
+                jsr = gen(wd, job["name"] + "-demo_gen-js", "js", text)
+                res["runs"] += 2
+                if bundled["rc"] == 0 and jsr["rc"] == 0:
+                    sub = {k[3:]: v for k, v in bundled["tree"].items() if k.startswith("js/")}
+                    if not sub:
+                        raise MachineryError("demo_gen run without relative_js_path produced no js/ folder")
+                    bump("demo_gen-bundled-js:" + ("same" if sub == jsr["tree"] else "differs"))
+                    if sub != jsr["tree"]:
+                        diff = sorted(k for k in set(sub) | set(jsr["tree"]) if sub.get(k) != jsr["tree"].get(k))
+                        res["batch_fail"] = {"what": "the js/ folder bundled by demo_gen differs from the js backend's output for the same input",
+                                             "real": "ok", "canon": "-", "differing_files": diff[:20], "ids": main}
             if res["sample"] is None and main:
                 i = main[len(main) // 2]
                 res["sample"] = {"formula": case_text(bycase[i]), "placement": placement, "payload": payload, "backend": backend,
                                  "reference": {"outer": truth[i][0], "inner": truth[i][1]} if bycase[i]["outer"] is not None else truth[i][1],
-                                 "observed": {"zq7%s%04d" % (k, i): ((k, i) in toks) for k in expected_tokens(placement, payload, truth[i][0], truth[i][1], backend)},
+                                 "observed": {"zq7%s%04d" % (k, i): ((k, i) in toks) for k in expected_tokens(placement, payload, truth[i][0], truth[i][1], backend, i)},
                                  "tree_equals_canonical": real["tree"] == canon["tree"]}
     if dup:
         # both the inherited and the own `disable` hold: the lowering reports "Duplicate `disable` attribute" (implemented,
         # not documented in the book). Accepted outcomes: that diagnostic for exactly these items, or the item simply absent.
-        r = gen(wd, job["name"] + "-" + backend + "-dup", backend, emit(placement, payload, dup, real_cond))
+        r = gen(wd, job["name"] + "-" + backend + "-dup", backend, emit(placement, payload, dup, real_cond, rotate=True))
         res["runs"] += 1
         it = ITEM_TOKEN[placement]
         if r["rc"] == 0:
@@ -724,10 +759,10 @@ def plan(tier):
 def minimal_repro(wd, probe, placement, payload, backend, case):
     """Re-run the smallest failing case alone (this is also the confirming second run)."""
     c = dict(case)
-    c["idx"] = 7
+    c["idx"] = 4 + case["idx"] % 4  # keeps the method form of the failing case
     job = {"wd": wd, "probe": probe, "name": "min", "placement": placement, "payload": payload, "backend": backend, "cases": [c]}
     r = process(job)
-    text = emit(placement, payload, [7], lambda i, role: render(c["outer" if role == "o" else "inner"]))
+    text = emit(placement, payload, [c["idx"]], lambda i, role: render(c["outer" if role == "o" else "inner"]), rotate=True)
     return r, text
 
 
@@ -839,7 +874,7 @@ def run(tier):
             if f["idx"] not in [x["idx"] for x in r2["fails"]]:
                 raise MachineryError("non-deterministic failure: %s %s %s %s" % (payload, placement, ctext, backend))
             text = emit(placement, payload, [c["idx"] for c in job["cases"]],
-                        lambda i, role: render({c["idx"]: c for c in job["cases"]}[i]["outer" if role == "o" else "inner"]))
+                        lambda i, role: render({c["idx"]: c for c in job["cases"]}[i]["outer" if role == "o" else "inner"]), rotate=True)
         rep.violation("C13|%s|%s|%s|backend=%s|%s" % (payload, placement, ctext, backend, direc),
                       {"placement": placement, "payload": payload, "backend": backend, "case": {"outer": case["outer"], "inner": case["inner"]},
                        "formula": ctext, "input_rs": text, "expected": f["expected"], "observed": f["observed"],
